@@ -292,6 +292,9 @@ func init() {
 		components:  map[string]string{"internal/pkg/source/hq (consumer, producer, finisher, seencheck, websocket), internal/pkg/source/lq": "real code with hook points", "github.com/internetarchive/gocrawlhq v1.2.31": "real, patched copy with a websocket dial seam; REST through a replaced http.DefaultTransport", "crawl HQ": "simulated service with per-call fault plan", "rest of the pipeline": "as for C01"},
 		rule:        "one case = one crawl with outlinks (max-hops 1-2) against either the simulated crawl HQ with a generated per-call fault sequence (5xx, reset before/after apply, timeout) over add/delete/get/seencheck calls and batch sizes 1-4, or the local sqlite queue; conservation of (text, via, hops) and of finish ids between what the pipeline emitted and what the queue applied is checked once the crawl is idle; distinct/non-trivial as for C01",
 		gen: func(t *scen.Tape, i int, tier string) *scen.Scenario {
+			if i%12 == 5 || i%12 == 11 {
+				return scen.GenQueuePileUp(t, i%12 == 5) // an outage longer than the queue client's buffers hold
+			}
 			o := scen.CrawlOpts{Prop: "C15", MinSeeds: 2, MaxSeeds: 6, Hops: true, Faults: true, NoBadSeeds: i%3 == 0}
 			o.HQ = i%2 == 0
 			sc := scen.GenCrawl(t, o)
